@@ -972,11 +972,70 @@ fn run_session(d: &JapaneseDictionary, mode: &str, seq: &[String]) -> Vec<Result
     out
 }
 
+/// start_build rejects originals longer than MAX_LENGTH = u16::MAX / 4 * 3 bytes, commit rejects a rewritten text longer
+/// than REALLY_MAX_LENGTH = u16::MAX bytes (buffer/mod.rs); such a step must answer InputTooLong and leave no trace
+const MAX_LENGTH: usize = 49149;
+const REALLY_MAX_LENGTH: usize = 65535;
+
+/// run-length form of long texts (descriptions of sessions with 49 KB inputs stay small)
+fn compact(text: &str) -> Value {
+    if text.len() < 300 {
+        return json!(text);
+    }
+    let mut runs: Vec<(char, u64)> = vec![];
+    for c in text.chars() {
+        match runs.last_mut() {
+            Some((d, n)) if *d == c => *n += 1,
+            _ => runs.push((c, 1)),
+        }
+    }
+    json!({"rle": runs.iter().map(|(c, n)| json!([c.to_string(), n])).collect::<Vec<_>>()})
+}
+fn expand(v: &Value) -> String {
+    match v.as_str() {
+        Some(s) => s.to_string(),
+        None => v["rle"].as_array().map(|a| a.iter().map(|p| p[0].as_str().unwrap_or("").repeat(p[1].as_u64().unwrap_or(0) as usize)).collect::<String>()).unwrap_or_default(),
+    }
+}
+fn short(text: &str) -> String {
+    if text.len() < 300 {
+        format!("{:?}", text)
+    } else {
+        format!("<{} bytes: {}>", text.len(), compact(text))
+    }
+}
+
 fn session_cases(sink: &mut Sink, d: &JapaneseDictionary, t: &Table, mode: &str, seq: &[String], verbose: bool) {
     let rs = run_session(d, mode, seq);
+    let texts_desc: Vec<Value> = seq.iter().map(|x| compact(x)).collect();
     for (step, (text, r)) in seq.iter().zip(rs.iter()).enumerate() {
         let fresh = run_plugin(d, text);
         let want = spec_normalize(&t.pairs, &t.ign, text);
+        let too_long = text.len() > MAX_LENGTH || want.len() > REALLY_MAX_LENGTH;
+        let reused_after = if mode == "buffer" { 1 } else { 2 };
+        let after_rejected = step >= reused_after && {
+            let prev = &seq[step - reused_after];
+            prev.len() > MAX_LENGTH || spec_normalize(&t.pairs, &t.ign, prev).len() > REALLY_MAX_LENGTH
+        };
+        let seen: Vec<String> = seq[..step].iter().map(|x| short(x)).collect();
+        let desc = json!({"kind": "session", "mode": mode, "texts": texts_desc, "step": step, "text": compact(text), "table": t.pairs,
+            "exempt": t.ign.iter().map(|c| c.to_string()).collect::<Vec<_>>()});
+        sink.tag(&format!("session_{}_step", mode));
+        if verbose {
+            println!("step {} text {}\n  reused objects: {}\n  fresh buffer  : {}\n  specification : {}", step, short(text),
+                short(&format!("{:?}", r)), short(&format!("{:?}", fresh)), short(&want));
+        }
+        if too_long {
+            // no model term for a 49 KB text: the step must be answered InputTooLong (no panic), by the reused objects and by a fresh buffer
+            sink.tag(if text.len() > MAX_LENGTH { "session_text_rejected_by_start_build" } else { "session_text_rejected_by_commit" });
+            let id = sink.case_rust_only(desc, true);
+            match r {
+                Err(e) if e.contains("InputTooLong") && !e.starts_with("panic") && fresh.is_err() => {}
+                other => sink.fail(id, &format!("{} session, input #{} {} ({} bytes, specified normalisation {} bytes) after {:?}: expected InputTooLong, reused objects give {}, a fresh buffer {}",
+                    mode, step + 1, short(text), text.len(), want.len(), seen, short(&format!("{:?}", other)), short(&format!("{:?}", fresh))), ""),
+            }
+            continue;
+        }
         let (o, offs) = cout(r);
         let term = format!(
             "check_default {} {} {} {} {} {} {}",
@@ -990,40 +1049,97 @@ fn session_cases(sink: &mut Sink, d: &JapaneseDictionary, t: &Table, mode: &str,
         );
         let dirty = !is_plain(text);
         // non-trivial: a text that needs the general path, worked on in a buffer that held an earlier text
-        let reused_after = if mode == "buffer" { 1 } else { 2 };
-        let nontrivial = dirty && step >= reused_after;
-        sink.tag(&format!("session_{}_step", mode));
+        let nontrivial = (dirty || after_rejected) && step >= reused_after;
         if nontrivial {
             sink.tag("session_dirty_text_in_reused_buffer");
             if step >= reused_after && is_plain(&seq[step - reused_after]) && !seq[step - reused_after].is_empty() {
                 sink.tag("session_dirty_text_after_clean_text_in_same_buffer");
             }
         }
-        let desc = json!({"kind": "session", "mode": mode, "texts": seq, "step": step, "text": text, "table": t.pairs,
-            "exempt": t.ign.iter().map(|c| c.to_string()).collect::<Vec<_>>()});
-        let id = sink.case(term, desc, nontrivial);
-        if verbose {
-            println!("step {} text {:?}\n  reused objects: {:?}\n  fresh buffer  : {:?}\n  specification : {:?}", step, text, r, fresh, want);
+        if after_rejected {
+            sink.tag("session_text_in_buffer_of_a_rejected_text");
         }
-        let seen: Vec<&String> = seq[..step].iter().collect();
+        let id = sink.case(term, desc, nontrivial);
         match r {
-            Ok((cur, _)) if *cur != want => sink.fail(id, &format!("{} session, input #{} {:?} after {:?} (table {:?} exempt {:?}): text used for lookup is {:?}, specified normalisation is {:?}; a fresh buffer gives {:?}",
-                mode, step + 1, text, seen, t.pairs, t.ign, cur, want, fresh.as_ref().map(|x| &x.0)), ""),
+            Ok((cur, _)) if *cur != want => sink.fail(id, &format!("{} session, input #{} {:?} after {:?} (table {:?} exempt {:?}): text used for lookup is {}, specified normalisation is {:?}; a fresh buffer gives {:?}",
+                mode, step + 1, text, seen, t.pairs, t.ign, short(cur), want, fresh.as_ref().map(|x| &x.0)), ""),
             Ok(_) if *r != fresh => sink.fail(id, &format!("{} session, input #{} {:?} after {:?}: reused objects give {:?}, a fresh buffer gives {:?}", mode, step + 1, text, seen, r, fresh), ""),
-            Err(e) => sink.fail(id, &format!("{} session, input #{} {:?} after {:?}: {}", mode, step + 1, text, seen, e), ""),
+            Err(e) => sink.fail(id, &format!("{} session, input #{} {:?} after {:?}: {}", mode, step + 1, text, seen, short(e)), ""),
             _ => {}
         }
     }
 }
 
-fn gen_session(rng: &mut Rng, t: &Table) -> Vec<String> {
+/// a text that start_build accepts but whose normalisation is too long for commit (many characters with a long NFKC /
+/// table expansion), or one that start_build itself rejects
+fn gen_long_text(rng: &mut Rng, t: &Table) -> Option<String> {
+    if rng.chance(1, 4) {
+        let n = MAX_LENGTH / 3 + 1 + rng.below(40) as usize;
+        return Some("京".repeat(n));
+    }
+    let mut cands: Vec<(String, usize)> = vec![];
+    for u in ['\u{FDFA}', '\u{3316}', '\u{337F}', '\u{FDFB}', '\u{33A2}', '㈱', '\u{2A74}'] {
+        let s = u.to_string();
+        let out = spec_normalize(&t.pairs, &t.ign, &s.repeat(3)).len() / 3;
+        if out * (MAX_LENGTH / s.len()) > REALLY_MAX_LENGTH + 200 {
+            cands.push((s, out));
+        }
+    }
+    // keys with long values expand as well
+    for (k, v) in &t.pairs {
+        let out = spec_normalize(&t.pairs, &t.ign, &k.repeat(3)).len() / 3;
+        if !k.is_empty() && out * (MAX_LENGTH / k.len()) > REALLY_MAX_LENGTH + 200 && k.chars().count() == 1 {
+            cands.push((k.clone(), out));
+        }
+        let _ = v;
+    }
+    if cands.is_empty() {
+        return None;
+    }
+    let (unit, out) = rng.pick(&cands).clone();
+    let lo = REALLY_MAX_LENGTH / out + 2;
+    let hi = (MAX_LENGTH - 64) / unit.len();
+    if lo >= hi {
+        return None;
+    }
+    let n = lo + rng.below((hi - lo) as u64) as usize;
+    let mut s = String::new();
+    if rng.chance(1, 2) {
+        s.push_str(&"x".repeat(rng.below(20) as usize));
+    }
+    s.push_str(&unit.repeat(n));
+    if rng.chance(1, 2) {
+        s.push_str(&"京".repeat(rng.below(20) as usize));
+    }
+    let want = spec_normalize(&t.pairs, &t.ign, &s);
+    if s.len() <= MAX_LENGTH && want.len() > REALLY_MAX_LENGTH {
+        Some(s)
+    } else {
+        None
+    }
+}
+
+fn gen_session(rng: &mut Rng, t: &Table, with_long: bool) -> Vec<String> {
     let n = 3 + rng.below(6) as usize;
-    (0..n)
+    let mut v: Vec<String> = (0..n)
         .map(|_| {
             let plain = rng.chance(1, 2);
             gen_text(rng, t, plain)
         })
-        .collect()
+        .collect();
+    if with_long {
+        // somewhere in the sequence, followed by at least two ordinary texts (the tokenizer alternates two buffers)
+        if let Some(long) = gen_long_text(rng, t) {
+            let pos = rng.below((v.len() - 2) as u64 + 1) as usize;
+            v.insert(pos, long);
+            if rng.chance(1, 3) {
+                if let Some(long2) = gen_long_text(rng, t) {
+                    v.insert(pos + 1, long2);
+                }
+            }
+        }
+    }
+    v
 }
 
 fn session_stream(sink: &mut Sink, env: &mut Env, rng: &mut Rng, ntables: usize) {
@@ -1040,10 +1156,208 @@ fn session_stream(sink: &mut Sink, env: &mut Env, rng: &mut Rng, ntables: usize)
             let seq: Vec<String> = if i == 0 {
                 ["東京都", "京都", "ｱｲｳ", "ＡＢＣ", "abc", "ｶﾞｷﾞ", "に行く", "Ⅲ"].iter().map(|x| x.to_string()).collect()
             } else {
-                gen_session(rng, &t)
+                gen_session(rng, &t, i % 2 == 1)
             };
             session_cases(sink, &d, &t, mode, &seq, false);
         }
+    }
+}
+
+// ------------------------------------------------------------------ rewrite.def as TEXT
+/// Independent statement of the file format (doc comment of read_rewrite_lists): a line is trimmed; empty lines and
+/// lines whose first character is '#' are skipped; the rest is split on white space: one column = one exempt
+/// character, two columns = a rule (whatever the strings are), anything else is an error; a key defined twice is an
+/// error.  Err = (kind, line): 1 "is not character", 2 "already defined", 3 wrong number of columns.
+fn parse_rewrite_def(text: &str) -> Result<Table, (u32, usize)> {
+    let mut t = Table { pairs: vec![], ign: vec![] };
+    let mut lines: Vec<&str> = text.split('\n').collect();
+    if lines.last() == Some(&"") {
+        lines.pop();
+    }
+    for (i, line) in lines.iter().enumerate() {
+        let line = line.trim();
+        if line.is_empty() || line.starts_with('#') {
+            continue;
+        }
+        let cols: Vec<&str> = line.split_whitespace().collect();
+        match cols.len() {
+            1 => {
+                let mut it = cols[0].chars();
+                match (it.next(), it.next()) {
+                    (Some(c), None) => t.ign.push(c),
+                    _ => return Err((1, i)),
+                }
+            }
+            2 => {
+                if t.pairs.iter().any(|(k, _)| k == cols[0]) {
+                    return Err((2, i));
+                }
+                t.pairs.push((cols[0].to_string(), cols[1].to_string()));
+            }
+            _ => return Err((3, i)),
+        }
+    }
+    Ok(t)
+}
+
+/// what the loader answered: Ok, or (kind, line) of InvalidDataFormat(line, message)
+fn load_status(r: &Result<JapaneseDictionary, String>) -> Result<(), (u32, usize, String)> {
+    match r {
+        Ok(_) => Ok(()),
+        Err(e) => {
+            if let Some(p) = e.find("InvalidDataFormat(") {
+                let rest = &e[p + "InvalidDataFormat(".len()..];
+                let num: String = rest.chars().take_while(|c| c.is_ascii_digit()).collect();
+                let kind = if rest.contains("is not character") { 1 } else if rest.contains("is already defined") { 2 } else { 3 };
+                if let Ok(n) = num.parse::<usize>() {
+                    return Err((kind, n, e.clone()));
+                }
+            }
+            Err((0, 0, e.clone()))
+        }
+    }
+}
+
+const DEF_CHARS: &[char] = &['a', 'b', 'c', 'x', 'A', 'Ａ', 'ｶ', 'ﾞ', 'か', '♯', '№', '#', '#', '＃', 'Ⅲ', '徳', '\u{1F600}', '㈱', '\\', '"', ',', ';', '=', '-'];
+const DEF_SEPS: &[&str] = &[" ", "\t", "  ", " \t ", "\u{3000}", "\u{A0}", "\u{2003}", "\t\t"];
+
+fn def_token(rng: &mut Rng, max: usize) -> String {
+    let n = 1 + rng.below(max as u64) as usize;
+    (0..n).map(|_| *rng.pick(DEF_CHARS)).collect()
+}
+
+/// the text of a rewrite.def, line by line: comments (also indented, also "#" followed by columns), blank and
+/// white-space-only lines, exempt characters, rules with every kind of separator, keys and values that contain or start
+/// with '#', and - rarely, so that most files load - one-column lines of several characters, lines of three or four
+/// columns (among them "rule # trailing words"), repeated keys; LF / CR LF, with or without a final line end
+fn gen_def_text(rng: &mut Rng) -> String {
+    let nlines = rng.below(9) as usize;
+    let crlf = rng.chance(1, 4);
+    let mut keys: Vec<String> = vec![];
+    let mut out = String::new();
+    for li in 0..nlines {
+        let mut line = String::new();
+        if rng.chance(1, 4) {
+            line.push_str(*rng.pick(DEF_SEPS));
+        }
+        match rng.below(20) {
+            0 | 1 => line.push_str(&format!("#{}", if rng.chance(1, 2) { format!(" {} {}", def_token(rng, 3), def_token(rng, 3)) } else { def_token(rng, 3) })),
+            2 => {}
+            3 | 4 | 5 => line.push(*rng.pick(DEF_CHARS)),
+            6 => line.push_str(&def_token(rng, 3)), // usually several characters in one column
+            7 => {
+                // three or four columns; often the last ones look like a trailing comment
+                line.push_str(&format!("{}{}{}{}", def_token(rng, 2), rng.pick(DEF_SEPS), def_token(rng, 2), rng.pick(DEF_SEPS)));
+                if rng.chance(1, 2) {
+                    line.push_str(&format!("# {}", def_token(rng, 2)));
+                } else {
+                    line.push_str(&def_token(rng, 2));
+                }
+            }
+            8 if !keys.is_empty() => {
+                let k = rng.pick(&keys).clone();
+                line.push_str(&format!("{}{}{}", k, rng.pick(DEF_SEPS), def_token(rng, 2)));
+            }
+            _ => {
+                let k = def_token(rng, 3);
+                // values that start with '#', are "#", contain '#'
+                let v = match rng.below(6) {
+                    0 => "#".to_string(),
+                    1 => format!("#{}", def_token(rng, 2)),
+                    2 => format!("{}#", def_token(rng, 2)),
+                    _ => def_token(rng, 3),
+                };
+                line.push_str(&format!("{}{}{}", k, rng.pick(DEF_SEPS), v));
+                keys.push(k);
+            }
+        }
+        if rng.chance(1, 5) {
+            line.push_str(*rng.pick(DEF_SEPS));
+        }
+        out.push_str(&line);
+        if li + 1 < nlines || rng.chance(3, 4) {
+            out.push_str(if crlf { "\r\n" } else { "\n" });
+        }
+    }
+    out
+}
+
+fn deftext_case(sink: &mut Sink, env: &mut Env, rng: &mut Rng, def: &str, texts: Option<Vec<String>>, verbose: bool) {
+    let path = env.file("rewrite", def);
+    let loaded = env.dict(&env.chardef.clone(), json!({"class": "com.worksap.nlp.sudachi.DefaultInputTextPlugin", "rewriteDef": path}));
+    let got = load_status(&loaded);
+    let want = parse_rewrite_def(def);
+    let (st, ln) = match &got {
+        Ok(()) => (0u32, 0usize),
+        Err((k, n, _)) => (*k, *n),
+    };
+    let term = format!("check_rewrite_load {} {} {}", ctext(def), cn(st), cnu(ln));
+    let has_hash_col = def.lines().any(|l| {
+        let l = l.trim();
+        !l.starts_with('#') && l.split_whitespace().skip(1).any(|c| c.starts_with('#'))
+    });
+    sink.tag(match &want {
+        Ok(_) => "rewrite_def_text_accepted",
+        Err((1, _)) => "rewrite_def_text_rejected_not_character",
+        Err((2, _)) => "rewrite_def_text_rejected_duplicate_key",
+        Err(_) => "rewrite_def_text_rejected_columns",
+    });
+    if has_hash_col {
+        sink.tag("rewrite_def_text_with_column_starting_with_hash");
+    }
+    let id = sink.case(term, json!({"kind": "deftext", "rewrite_def": def}), true);
+    if verbose {
+        println!("rewrite.def text:\n{}\n---\nloader: {:?}\nformat: {:?}", def, got, want.as_ref().map(|t| (&t.pairs, &t.ign)));
+    }
+    let same = match (&got, &want) {
+        (Ok(()), Ok(_)) => true,
+        (Err((k, n, _)), Err((k2, n2))) => k == k2 && n == n2,
+        _ => false,
+    };
+    if !same {
+        sink.fail(id, &format!("rewrite.def text {:?}: loader answers {:?}, the file format says {:?}", def, got,
+            want.as_ref().map(|t| format!("table {:?} exempt {:?}", t.pairs, t.ign)).map_err(|e| format!("error kind {} in line {}", e.0, e.1))), "");
+    }
+    let (Ok(d), Ok(t)) = (&loaded, &want) else { return };
+    let texts = texts.unwrap_or_else(|| {
+        let mut v: Vec<String> = (0..4).map(|k| gen_text(rng, t, k == 0)).collect();
+        // every key and every exempt character once on its own and once between neighbours
+        for (k, _) in &t.pairs {
+            v.push(k.clone());
+            v.push(format!("Ａ{}b", k));
+        }
+        for c in &t.ign {
+            v.push(format!("a{}", c));
+        }
+        v
+    });
+    for text in texts {
+        let r = run_plugin(d, &text);
+        let spec = spec_normalize(&t.pairs, &t.ign, &text);
+        let (o, offs) = cout(&r);
+        let term = format!("check_default_text {} {} {} {} {} {}", oracle_term(&text), ctext(def), ctext(&text), cbool(qc_text(&text)), o, offs);
+        sink.tag("rewrite_def_text_normalisation");
+        let id = sink.case(term, json!({"kind": "deftext", "rewrite_def": def, "text": text}), t.pairs.iter().any(|(k, _)| text.contains(k.as_str())));
+        if verbose {
+            println!("text {:?}: implementation {:?}, specification {:?}", text, r, spec);
+        }
+        match &r {
+            Ok((cur, _)) if *cur == spec => {}
+            other => sink.fail(id, &format!("rewrite.def text {:?} (table {:?} exempt {:?}), text {:?}: implementation {:?}, specified normalisation {:?}", def, t.pairs, t.ign, text, other.as_ref().map(|x| &x.0), spec), ""),
+        }
+    }
+}
+
+fn deftext_stream(sink: &mut Sink, env: &mut Env, rng: &mut Rng, n: usize) {
+    // char::is_whitespace of std = the White_Space set the reader model uses
+    let ws: Vec<u32> = (0..=0x10FFFFu32).filter(|c| char::from_u32(*c).map_or(false, |ch| ch.is_whitespace())).collect();
+    sink.case(format!("check_white_space {}", clist(ws.iter().map(|c| cn(*c)))), json!({"kind": "white-space-set"}), true);
+    for d in ["# c\r\n\r\n Ⅲ \r\n♯\t#\r\na#b   x\r\n", "♯ #\n№ #no.\n＃\t#\n", "a x # comment\n", "ab # x\n", " #a b\n\t# c\nx\u{3000}y", "a x\n\na y\n"] {
+        deftext_case(sink, env, rng, d, None, false);
+    }
+    for _ in 0..n {
+        let def = gen_def_text(rng);
+        deftext_case(sink, env, rng, &def, None, false);
     }
 }
 
@@ -1071,7 +1385,7 @@ fn strs(v: &Value) -> Vec<char> {
 }
 
 fn replay(sink: &mut Sink, env: &mut Env, case: &Value) {
-    let text = case["text"].as_str().unwrap_or("").to_string();
+    let text = expand(&case["text"]);
     match case["kind"].as_str().unwrap_or("") {
         "default" => {
             let t = Table {
@@ -1119,14 +1433,20 @@ fn replay(sink: &mut Sink, env: &mut Env, case: &Value) {
                 pairs: case["table"].as_array().map(|a| a.iter().map(|p| (p[0].as_str().unwrap().to_string(), p[1].as_str().unwrap().to_string())).collect()).unwrap_or_default(),
                 ign: strs(&case["exempt"]),
             };
-            let seq: Vec<String> = case["texts"].as_array().map(|a| a.iter().map(|x| x.as_str().unwrap().to_string()).collect()).unwrap_or_default();
+            let seq: Vec<String> = case["texts"].as_array().map(|a| a.iter().map(expand).collect()).unwrap_or_default();
             let mode = case["mode"].as_str().unwrap_or("tokenizer").to_string();
             let mut rng = Rng::new(1);
             let body = render_table(&t, &mut rng);
-            println!("rewrite.def:\n{}session mode {:?}, inputs {:?}", body, mode, seq);
+            println!("rewrite.def:\n{}session mode {:?}, inputs {:?}", body, mode, seq.iter().map(|x| short(x)).collect::<Vec<_>>());
             let path = env.file("rewrite", &body);
             let d = env.dict(&env.chardef.clone(), json!({"class": "com.worksap.nlp.sudachi.DefaultInputTextPlugin", "rewriteDef": path})).unwrap();
             session_cases(sink, &d, &t, &mode, &seq, true);
+        }
+        "deftext" => {
+            let def = case["rewrite_def"].as_str().unwrap_or("").to_string();
+            let texts = case["text"].as_str().map(|x| vec![x.to_string()]);
+            let mut rng = Rng::new(1);
+            deftext_case(sink, env, &mut rng, &def, texts, true);
         }
         "chain" => {
             let t = Table {
@@ -1166,9 +1486,9 @@ fn directed(sink: &mut Sink, env: &mut Env, rng: &mut Rng) {
 }
 
 pub fn run(args: &Args) {
-    let mut sink = Sink::new("C07", &args.out, &["Model.Normalize"], args.seed, &args.tier);
+    let mut sink = Sink::new("C07", &args.out, &["Model.Normalize", "Model.RewriteDefText"], args.seed, &args.tier);
     sink.shard_size = 120;
-    sink.rule("(a) DefaultInputTextPlugin: random rewrite.def tables (0..6 keys of 1..3 code points over {a,b,c} or a 53-character alphabet of upper-case / full-width / compatibility / combining / title-case / astral characters; chains of keys that are prefixes of other keys; multi-character values; 0..3 exempt characters) x texts built from keys, truncated keys, exempt characters and the alphabet; one third of the texts are fast-path texts, half of those are re-run next to an unrelated full-width letter (context pair); (b) ProlongedSoundMarkPlugin: random mark sets incl. regex-special characters x symbols (default, multi-character, empty) x texts dense in marks; (c) IgnoreYomiganaPlugin: the natural, the two shipped and random char.def files (short runs, single points, touching runs, ALL blocks, classes overlapping each other and the brackets) / bracket sets / max length; the kanji and reading classes of the oracle and of the Coq model are derived from the TEXT of the char.def (union of definition lines), never from the implementation; for every definition range the code points begin-1, begin, end, end+1 are probed in the kanji position and in the reading position of an otherwise perfect candidate, and random texts dense in kanji-bracket-reading-bracket candidates draw those positions from both sides of every range end; (e) sessions: one InputBuffer (reset / start_build / plugin rewrite / build) and one StatefulTokenizer + one MorphemeList (reset / do_tokenize / collect_results, which swaps the two input buffers) reused over sequences of 3..8 texts mixing already-normalised and to-be-normalised ones; every step is compared with the specification, the Coq model and a fresh buffer (non-trivial = a text needing the general path in a buffer that held an earlier text); (d) every Unicode scalar value alone and between neighbours for the shipped tables (stride in the quick tier), and the oracle laws over all scalar values. non-trivial = a key occurs or some character changes (a), a run of >= 2 marks occurs (b), something is removed (c); distinct by generated Coq term");
+    sink.rule("(a) DefaultInputTextPlugin: random rewrite.def tables (0..6 keys of 1..3 code points over {a,b,c} or a 53-character alphabet of upper-case / full-width / compatibility / combining / title-case / astral characters; chains of keys that are prefixes of other keys; multi-character values; 0..3 exempt characters) x texts built from keys, truncated keys, exempt characters and the alphabet; one third of the texts are fast-path texts, half of those are re-run next to an unrelated full-width letter (context pair); (b) ProlongedSoundMarkPlugin: random mark sets incl. regex-special characters x symbols (default, multi-character, empty) x texts dense in marks; (c) IgnoreYomiganaPlugin: the natural, the two shipped and random char.def files (short runs, single points, touching runs, ALL blocks, classes overlapping each other and the brackets) / bracket sets / max length; the kanji and reading classes of the oracle and of the Coq model are derived from the TEXT of the char.def (union of definition lines), never from the implementation; for every definition range the code points begin-1, begin, end, end+1 are probed in the kanji position and in the reading position of an otherwise perfect candidate, and random texts dense in kanji-bracket-reading-bracket candidates draw those positions from both sides of every range end; (e) sessions: one InputBuffer (reset / start_build / plugin rewrite / build) and one StatefulTokenizer + one MorphemeList (reset / do_tokenize / collect_results, which swaps the two input buffers) reused over sequences of 3..8 texts mixing already-normalised and to-be-normalised ones; every step is compared with the specification, the Coq model and a fresh buffer (non-trivial = a text needing the general path in a buffer that held an earlier text); (f) rewrite.def as TEXT: files generated line by line (comments, indented comments, blank / white-space-only lines, exempt characters, rules separated by space / tab / ideographic space / NBSP / several of them, keys and values that contain or start with '#', one-column lines of several characters, lines of three or four columns incl. 'rule # words', repeated keys, LF / CR LF, with or without final line end); accept / reject (+ error kind and line number) compared with the Coq model of the reader and an independent Rust statement of the format, and texts normalised with the loaded plugin compared with normalize_spec of the table the MODEL reads from the same text; sessions additionally contain texts accepted by start_build but rejected at commit (normalisation > 65535 bytes) and texts rejected by start_build, followed by ordinary texts; (d) every Unicode scalar value alone and between neighbours for the shipped tables (stride in the quick tier), and the oracle laws over all scalar values. non-trivial = a key occurs or some character changes (a), a run of >= 2 marks occurs (b), something is removed (c); distinct by generated Coq term");
     let mut env = Env::new(args);
     if let Some(p) = &args.replay {
         let v: Value = serde_json::from_str(&std::fs::read_to_string(p).unwrap()).unwrap();
@@ -1185,6 +1505,7 @@ pub fn run(args: &Args) {
     yomi_stream(&mut sink, &mut env, &mut rng, args.n(70, 800), 10);
     chain_stream(&mut sink, &mut env, &mut rng, args.n(40, 600), 8);
     session_stream(&mut sink, &mut env, &mut rng, args.n(60, 800));
+    deftext_stream(&mut sink, &mut env, &mut rng, args.n(150, 3000));
     malformed(&mut sink, &mut env);
     let _ = std::fs::remove_dir_all(&env.dir);
     sink.finish();
